@@ -315,6 +315,37 @@ func firstRaceFrame(s string) string {
 	return "?"
 }
 
+type concRS []concRS
+type concRM map[string]concRM
+type concRA [1]*concRA
+
+// slowWriter copies what it is given, yields the processor a few times (other goroutines Marshal meanwhile and may be
+// handed the same pooled buffer if it was released too early), and then checks that the bytes did not change.
+type slowWriter struct {
+	got     []byte
+	changed bool
+}
+
+func (w *slowWriter) Write(p []byte) (int, error) {
+	snap := append([]byte{}, p...)
+	for i := 0; i < 4; i++ {
+		runtime.Gosched()
+		json.Marshal(map[string]string{"k": "vvvvvvvvvvvvvvvvvvvvvvvvvvvvvvvvvvvvvvvvvvvvvvvvvvvvvvvvvvvvvvvvvvvvvvvvvv"})
+	}
+	if !bytes.Equal(p, snap) {
+		w.changed = true
+	}
+	w.got = append(w.got, snap...)
+	return len(p), nil
+}
+
+func (w *slowWriter) verdict() string {
+	if w.changed {
+		return "encoder-bytes-changed-during-write"
+	}
+	return string(w.got)
+}
+
 // concChild: vh-race concchild <seed> <goroutines> <types> <conc|seq>
 func concChild(args []string) {
 	seed, _ := strconv.ParseUint(args[0], 10, 64)
@@ -340,6 +371,17 @@ func concChild(args []string) {
 		Kids []*rec `protobuf:"bytes,3,rep" thrift:"3"`
 	}
 	recVal := &rec{V: 1, Next: &rec{V: 2}, Kids: []*rec{{V: 3}, {V: 4, Next: &rec{V: 5}}}}
+	// named slice / map / array types defined in terms of themselves: their inner codec is completed lazily, on first
+	// use of a nested value — warm the cache with empty values first, so that the FIRST nested use happens concurrently
+	json.Marshal(concRS{})
+	json.Marshal(concRM{})
+	json.Marshal(concRA{})
+	var tmpRS concRS
+	json.Unmarshal([]byte(`[]`), &tmpRS)
+	rsVal := concRS{concRS{}, concRS{concRS{concRS{}}}, nil}
+	rmVal := concRM{"a": concRM{"b": nil}, "c": concRM{}}
+	var ra0 concRA
+	raVal := concRA{&ra0}
 	jobs := make([][]job, G)
 	for g := range jobs {
 		for k := 0; k < 40; k++ {
@@ -350,6 +392,22 @@ func concChild(args []string) {
 	work := func(g int) {
 		for k, j := range jobs[g] {
 			r := concCall(j.pkg, fillValue(types[j.pkg][j.ti], j.seed))
+			if k%5 == 0 {
+				x, _ := json.Marshal(rsVal)
+				y, _ := json.Marshal(rmVal)
+				z, _ := json.Marshal(raVal)
+				var d concRS
+				json.Unmarshal(x, &d)
+				x2, _ := json.Marshal(d)
+				// an Encoder whose writer is slow: what it is handed must not change while it is being written
+				sw := &slowWriter{}
+				json.NewEncoder(sw).Encode(map[string]any{"owner": g, "data": strings.Repeat(string(rune('a'+g%26)), 200+k)})
+				if sw.changed {
+					fmt.Fprintln(os.Stderr, "encoder-bytes-changed-during-write (the pooled encode buffer was visible to two callers)")
+					os.Exit(3)
+				}
+				r += fmt.Sprintf("|%s|%s|%s|%s|%s", x, y, z, x2, sw.verdict())
+			}
 			if k%8 == 0 {
 				b, _ := json.Marshal(recVal)
 				pb, _ := proto.Marshal(recVal)
